@@ -63,7 +63,16 @@ def main():
             print(sid, 'detected=%s' % res.get('detected'), 'check_exit=%s' % res.get('check_exit'), 'demo %s->%s' % (res.get('demo_unpatched_exit'), res.get('demo_patched_exit')),
                   res.get('error', ''), (res.get('violation_keys') or [''])[0][:120], flush=True)
     # restore the evidence files of the unchanged tree is the caller's business (re-run the checks on /repo)
-    json.dump(summary, open(os.path.join(SEEDED, 'last_run_%s.json' % tier), 'w'), indent=1)
+    # merge: a run over some ids keeps the recorded results of the others (each seeded/<id>/result.json is the primary record)
+    last = os.path.join(SEEDED, 'last_run_%s.json' % tier)
+    merged = {}
+    if args and os.path.exists(last):
+        try:
+            merged = json.load(open(last))
+        except Exception:
+            merged = {}
+    merged.update(summary)
+    json.dump(merged, open(last, 'w'), indent=1)
     write_summary()
 
 
